@@ -161,28 +161,61 @@ theorem same_month_rule_pinned_counterexample :
     a.find_local_time_type_from_local 1970 1209600 = .single a.std ∧
     a.find_local_time_type 1209600 = some a.std := by decide
 
-/-- the transition-table loop, one transition: every wall-clock reading other than the excluded second
-`T + prevOff` is classified exactly (gap, fold and offset-preserving transitions alike).
-PARTIAL: the statement for a table of any length under `Spec.Zone.WellSeparated` (list induction over
-the loop, with the lemma that later windows lie above earlier ones) is not proved; it is compared on
-every run against the brute-force wall set on all system zones and the synthetic zones (oracle O3). -/
-theorem from_local_classifies_partial (z : Zone) (tr : Transition) (prev : Ltt) (ℓ : Int)
-    (hT : -4611686018427387904 ≤ tr.time ∧ tr.time ≤ 4611686018427387904)
-    (hp : -2147483648 ≤ prev.off ∧ prev.off ≤ 2147483647)
-    (ha : -2147483648 ≤ (typeAt z tr.idx).off ∧ (typeAt z tr.idx).off ≤ 2147483647)
-    (hx : ℓ ≠ tr.time + prev.off) :
-    Classifies (oneOff prev.off tr.time (typeAt z tr.idx).off) ℓ (outMap (fromLocalLoop z [tr] prev ℓ)) :=
-  one_transition_classifies' z tr prev ℓ hT hp ha hx
+/-- the transition table (zones without a rule), ANY number of transitions: for a sorted table whose
+wall-clock windows are `WellSeparated`, every wall-clock reading other than the excluded boundary
+seconds `T + prevOff` yields None / Single / Ambiguous exactly when 0 / 1 / 2 instants of the zone's
+step function `offAt` read it — also at transitions that change only the abbreviation or DST flag —
+with the right offsets, the two candidates distinct and earliest first.
+(`InRange`: offsets are `i32`, transition times within ±2^62 so that no window saturates.) -/
+theorem from_local_classifies (z : Zone) (ℓ : Int) (hrule : z.rule = none) (hs : Sorted z.transitions)
+    (hsep : WellSeparated z) (hnb : NoBoundary z (typeAt z 0).off z.transitions ℓ)
+    (hr : InRange z z.transitions) :
+    Classifies (offAt z) ℓ (z.find_local_time_type_from_local ℓ) :=
+  from_local_classifies' z ℓ hrule hs hsep hnb hr
 
-/-- round trip across one transition.  PARTIAL for the same reason. -/
-theorem roundtrip_partial (z : Zone) (tr : Transition) (prev : Ltt) (t : Int)
-    (hT : -4611686018427387904 ≤ tr.time ∧ tr.time ≤ 4611686018427387904)
-    (hp : -2147483648 ≤ prev.off ∧ prev.off ≤ 2147483647)
-    (ha : -2147483648 ≤ (typeAt z tr.idx).off ∧ (typeAt z tr.idx).off ≤ 2147483647)
-    (hx : t + oneOff prev.off tr.time (typeAt z tr.idx).off t ≠ tr.time + prev.off) :
-    oneOff prev.off tr.time (typeAt z tr.idx).off t ∈
-      (outMap (fromLocalLoop z [tr] prev (t + oneOff prev.off tr.time (typeAt z tr.idx).off t))).toList.map (·.off) :=
-  classifies_roundtrip _ _ _ (one_transition_classifies' z tr prev _ hT hp ha hx) t rfl
+/-- round trip on such a zone: converting an instant to wall-clock time and back returns it -/
+theorem roundtrip (z : Zone) (t : Int) (hrule : z.rule = none) (hs : Sorted z.transitions)
+    (hsep : WellSeparated z) (hnb : NoBoundary z (typeAt z 0).off z.transitions (t + offAt z t))
+    (hr : InRange z z.transitions) :
+    offAt z t ∈ (z.find_local_time_type_from_local (t + offAt z t)).toList.map (·.off) :=
+  classifies_roundtrip _ _ _ (from_local_classifies' z _ hrule hs hsep hnb hr) t rfl
+
+/-- non-vacuity: New-York-like table (gap 1918-03-31, fold 1918-10-27, gap 2024-03-10) -/
+def exTable : Zone :=
+  ⟨[⟨-1633280400, 1⟩, ⟨-1615140000, 0⟩, ⟨1710054000, 1⟩], [⟨-18000, false, none⟩, ⟨-14400, true, none⟩], [], none⟩
+
+example : Classifies (offAt exTable) (-1615140000 - 18000 + 1800) (.ambiguous ⟨-14400, true, none⟩ ⟨-18000, false, none⟩) := by
+  have h := from_local_classifies exTable (-1615140000 - 18000 + 1800) rfl (by unfold Sorted exTable; decide)
+    (by unfold WellSeparated; decide) (by unfold exTable NoBoundary NoBoundary NoBoundary NoBoundary; decide)
+    ⟨fun i => by
+        unfold typeAt exTable
+        match i with
+        | 0 => decide
+        | 1 => decide
+        | (n + 2) => simp [List.getD]; decide,
+      by unfold exTable; decide⟩
+  have e : exTable.find_local_time_type_from_local (-1615140000 - 18000 + 1800) =
+      .ambiguous ⟨-14400, true, none⟩ ⟨-18000, false, none⟩ := by decide
+  rw [e] at h; exact h
+
+/-- when a rule follows the table the wall-clock lookup hands every reading beyond the last window to
+the rule code.  PARTIAL: the composition "table theorem before the last window + rule theorem after it
+= the zone's step function" (which needs the footer rule to agree with the table around the last
+transition and the reading's calendar year to be the instant's) is not proved as one statement; the
+two halves are `from_local_classifies` / `rule_from_local_classifies`, and the composition is checked
+on every run by oracle O3 on all system zones. -/
+theorem from_local_with_rule_partial (z : Zone) (r : Rule) (ℓ : Int) (hrule : z.rule = some r) :
+    z.find_local_time_type_from_local ℓ =
+      (match (if z.transitions.isEmpty then LoopOut.fell (typeAt z 0)
+              else fromLocalLoop z z.transitions (typeAt z 0) ℓ) with
+       | .ret m => m
+       | .fell _ => r.find_local_time_type_from_local (naiveYear ℓ) ℓ) := by
+  unfold Zone.find_local_time_type_from_local
+  rw [hrule]
+  dsimp only
+  generalize (if z.transitions.isEmpty = true then LoopOut.fell (typeAt z 0)
+    else fromLocalLoop z z.transitions (typeAt z 0) ℓ) = out
+  cases out <;> rfl
 
 -- London 1968-10-27 (BST -> BST, same offset, abbreviation change only): one result, not two
 example : (fromLocalLoop ⟨[], [⟨0, false, none⟩, ⟨3600, true, none⟩, ⟨3600, false, none⟩], [], none⟩
